@@ -159,6 +159,11 @@ def run(ctx):
         directed.append(["Open", "Enable 1", SP, SX, S1, "Add 1 %d %s 0 7" % (FORMAT_RE, T(pat)), SP, SX, S1,
                          "Remove 1 %d %s 0 7" % (FORMAT_RE, T(pat)), SP, SX, S1, "Add 1 %d %s 0 7" % (FILE, T("*")),
                          "TagSet 3 %d %s 0 7" % (FORMAT_RE, T(pat)), SP, SX, S1, "TagClear %d %s 0 7" % (FORMAT_RE, T(pat)), SP, SX, S1])
+    # comma-separated lists in which the call site's name first occurs inside a longer alternative
+    SG = "Log %s %s 6 4 %s" % (T("b.c"), T("g"), T("yz"))
+    SFG = "Log %s %s 7 4 %s" % (T("ab.c"), T("fg"), T("x"))
+    for typ, txt in ((FUNC, "fg,g"), (FUNC, "g,fg"), (FILE, "ab.c,b.c"), (FILE, "b.c,ab.c"), (FUNC, "xfg,fgx,fg"), (FILE, "b.cc,ab.c")):
+        directed.append(["Open", "Enable 1", SG, "Add 1 %d %s 0 7" % (typ, T(txt)), SG, SFG, S1, "Remove 1 %d %s 0 7" % (typ, T(txt)), SG, SFG, S1])
     hs += [[ln.split() for ln in sc] for sc in directed]
     ctx.exec_validate(exe, hs, to_lines, "LogRouteTrace.tla", trace_cfg(ctx), label="c12", nshards=4 * min(jobs, 4))
     # (4) threaded targets: with the logging thread started and TWO threaded targets selected by the same call sites, each
